@@ -181,9 +181,41 @@ func run(seed int64, n int, dir string, _ []string) {
 			}
 			return strings.Join(s, " ")
 		}
-		v, err := pr.Query("SELECT id FROM t" + orderBy)
+		// the shape of the query in front of ORDER BY: the sort must be right whatever ran before it
+		// (DISTINCT, analytic functions with their own ORDER BY / PARTITION BY, GROUP BY, derived table, WHERE)
+		pcols := make([]string, ncols)
+		for j, k := range g.Perm(ncols) {
+			pcols[j] = cols[k]
+		}
+		plist := strings.Join(pcols, ", ")
+		ca, cb := cols[g.Intn(ncols)], cols[g.Intn(ncols)]
+		shape := []int{0, 0, 1, 2, 2, 2, 2, 3, 3, 4, 5, 6}[g.Intn(12)]
+		if t == 0 {
+			shape = 0
+		}
+		keep := func(id int) bool { return true }
+		var prefix string
+		switch shape {
+		case 1:
+			prefix = "SELECT DISTINCT id, " + plist + " FROM t"
+		case 2:
+			prefix = "SELECT DISTINCT id, " + plist + ", RANK() OVER (ORDER BY " + ca + ") AS rk FROM t"
+		case 3:
+			prefix = "SELECT id, " + plist + ", ROW_NUMBER() OVER (PARTITION BY " + ca + " ORDER BY " + cb + " DESC) AS rn FROM t"
+		case 4:
+			prefix = "SELECT id FROM (SELECT * FROM t) AS s"
+		case 5:
+			prefix = "SELECT id, " + plist + " FROM t GROUP BY id, " + plist
+		case 6:
+			prefix = "SELECT id FROM t WHERE id % 2 = 0"
+			keep = func(id int) bool { return id%2 == 0 }
+		default:
+			prefix = "SELECT id FROM t"
+		}
+		o.Count(fmt.Sprintf("shape:%d", shape))
+		v, err := pr.Query(prefix + orderBy)
 		if err != nil {
-			o.Law("orderby_sql_error", err.Error())
+			o.Law("orderby_sql_error", map[string]interface{}{"sql": prefix + orderBy, "error": err.Error()})
 			pr.DisposeTable("t")
 			continue
 		}
@@ -193,14 +225,20 @@ func run(seed int64, n int, dir string, _ []string) {
 		for _, id := range order {
 			seen[id]++
 		}
-		okPerm := len(order) == nrows
+		okPerm := true
+		nkept := 0
 		for i := 0; i < nrows; i++ {
-			if seen[i] != 1 {
+			w := 0
+			if keep(i) {
+				w = 1
+				nkept++
+			}
+			if seen[i] != w {
 				okPerm = false
 			}
 		}
-		if !okPerm {
-			o.Law("order_by_permutation", map[string]interface{}{"rows": nrows, "out": joinInts(order)})
+		if !okPerm || len(order) != nkept {
+			o.Law("order_by_permutation", map[string]interface{}{"sql": prefix + orderBy, "rows": nrows, "out": joinInts(order)})
 		}
 		rowToks := make([]string, len(order))
 		for i, id := range order {
@@ -211,7 +249,7 @@ func run(seed int64, n int, dir string, _ []string) {
 			head = "c07.sorted_mixed" // outside the proved domain: reported under its own signature
 		}
 		o.Case(fmt.Sprintf("%s %s %d %s", head, strings.Join(itemToks, ","), nitems, strings.Join(rowToks, " ")), "sorted")
-		o.NonTrivial(fmt.Sprintf("sorted:%v:%d:%d:%v", itemToks, nrows/50, ncols, mixed))
+		o.NonTrivial(fmt.Sprintf("sorted:%v:%d:%d:%v:%d", itemToks, nrows/50, ncols, mixed, shape))
 		o.Count(fmt.Sprintf("rows~%d", nrows/100*100))
 
 		if mixed {
@@ -222,7 +260,7 @@ func run(seed int64, n int, dir string, _ []string) {
 		for c := 0; c < 8; c++ {
 			wt := g.Intn(2)
 			kind := g.Pick("n", "n", "p", "none")
-			off := []int{-2, 0, 0, 1, 2, nrows - 1, nrows, nrows + 3, 5}[g.Intn(9)]
+			off := []int{-2, 0, 0, 1, 2, nkept - 1, nkept, nkept + 3, 5}[g.Intn(9)]
 			hasOff := g.Intn(2) == 0
 			if !hasOff {
 				off = 0
@@ -230,7 +268,7 @@ func run(seed int64, n int, dir string, _ []string) {
 			var limTok, limSQL string
 			switch kind {
 			case "n":
-				l := []int{-1, 0, 1, 2, 3, nrows - 1, nrows, nrows + 1, 1000000}[g.Intn(9)]
+				l := []int{-1, 0, 1, 2, 3, nkept - 1, nkept, nkept + 1, 1000000}[g.Intn(9)]
 				limTok, limSQL = strconv.Itoa(l), fmt.Sprintf(" LIMIT %s", litInt(l))
 			case "p":
 				p := []float64{-5, 0, 0.5, 10, 25, 33.3, 50, 66.7, 99.9, 100, 100.5, 150, 1e10, math.NaN(), math.Inf(1), math.Inf(-1)}[g.Intn(16)]
@@ -256,7 +294,7 @@ func run(seed int64, n int, dir string, _ []string) {
 			if kind != "none" && wt == 1 {
 				limSQL += " WITH TIES"
 			}
-			sql := "SELECT id FROM t" + orderBy + limSQL
+			sql := prefix + orderBy + limSQL
 			if hasOff {
 				sql += fmt.Sprintf(" OFFSET %s", litInt(off))
 			}
@@ -282,6 +320,45 @@ func run(seed int64, n int, dir string, _ []string) {
 			o.NonTrivial(fmt.Sprintf("cut:%s:%d:%s:%d:%d", kind, wt, limTok, off, nrows/20))
 			o.Count("cut:" + kind)
 		}
+		pr.DisposeTable("t")
+	}
+
+	// LIMIT p PERCENT over a dense grid of (row count, percentage): the number of rows kept must be
+	// ceil(float64(N) * p / 100) in the code's own float arithmetic (model: limitPercent)
+	sizes := []int{25, 50, 75, 100, 1 + g.Intn(130), 1 + g.Intn(130), 131 + g.Intn(400)}
+	if n < 200 {
+		sizes = sizes[:5]
+	}
+	for _, N := range sizes {
+		rows := make([][]value.Primary, N)
+		for i := range rows {
+			rows[i] = []value.Primary{value.NewInteger(int64(i))}
+		}
+		if err := pr.DeclareTable("t", []string{"c1"}, rows); err != nil {
+			o.Law("declare_table_error", err.Error())
+			continue
+		}
+		var ps []float64
+		for p := 0; p <= 101; p++ {
+			ps = append(ps, float64(p))
+		}
+		for k := 0; k < 60; k++ {
+			ps = append(ps, float64(g.Intn(1000))/10, float64(g.Intn(10000))/100)
+		}
+		for _, p := range ps {
+			off := 0
+			if g.Intn(4) == 0 {
+				off = g.Intn(N + 2)
+			}
+			sql := fmt.Sprintf("SELECT id FROM t ORDER BY c1 LIMIT %s PERCENT OFFSET %d", strconv.FormatFloat(p, 'f', -1, 64), off)
+			got := "E"
+			if r, err := pr.Query(sql); err == nil {
+				got = strconv.Itoa(r.RecordLen())
+			}
+			o.Case(fmt.Sprintf("c07.pct %d %d %s", N, off, hc.EncF(p)), got)
+			o.Count("cut:pct")
+		}
+		o.NonTrivial(fmt.Sprintf("pct:%d", N))
 		pr.DisposeTable("t")
 	}
 }
